@@ -1,6 +1,7 @@
 package transports
 
 import (
+	"bytes"
 	"compress/flate"
 	"compress/gzip"
 	"io"
@@ -197,7 +198,7 @@ func (p *polling) onDataRequest(ctx *types.HttpContext) {
 func (p *polling) OnData(data types.BufferInterface) {
 	polling_log.Debug(`received "%s"`, data)
 
-	packets, _ := p.Parser().DecodePayload(data)
+	packets, _ := p.decodePayload(data)
 	for _, packetData := range packets {
 		if packet.CLOSE == packetData.Type {
 			polling_log.Debug("got xhr close packet")
@@ -207,6 +208,29 @@ func (p *polling) OnData(data types.BufferInterface) {
 
 		p.OnPacket(packetData)
 	}
+}
+
+// Decodes a payload. A revision 4 payload is split into its packets here:
+// the parser scans it with bufio.Scanner's default 64 KiB token limit and
+// silently drops a packet of that size or more (and everything after it).
+func (p *polling) decodePayload(data types.BufferInterface) ([]*packet.Packet, error) {
+	if p.Protocol() != 4 {
+		return p.Parser().DecodePayload(data)
+	}
+	encodedPackets := bytes.Split(data.Bytes(), []byte{0x1e})
+	if n := len(encodedPackets); len(encodedPackets[n-1]) == 0 {
+		// nothing after the last separator (or an empty payload)
+		encodedPackets = encodedPackets[:n-1]
+	}
+	packets := make([]*packet.Packet, 0, len(encodedPackets))
+	for _, encodedPacket := range encodedPackets {
+		packetData, err := p.Parser().DecodePacket(types.NewStringBuffer(encodedPacket))
+		if err != nil {
+			return packets, err
+		}
+		packets = append(packets, packetData)
+	}
+	return packets, nil
 }
 
 // Overrides onClose.
